@@ -241,6 +241,12 @@ def counted_arr_sum(arr, k=0):
   return int(arr.sum()) + k
 
 
+def counted_len(x):
+  """len of a str / bytes / list argument (the argument must arrive as it was given)."""
+  _count('counted_len')
+  return [type(x).__name__, len(x)]
+
+
 def counted_list(n):
   _count('counted_list')
   return [n, n + 1]
